@@ -29,18 +29,21 @@ VARIABLES status, config, hist, ctx, output,      \* core state (quiescent betwe
           queue,         \* events still queued (only non-empty while the consumer is busy / stopped)
           now,           \* virtual ms
           timers,        \* set of [owner, key, due, seq, ep]
+          svcs,          \* set of [owner, inv, seq]: invoked services whose task is alive (driver-controlled futures)
           busy,          \* 0 or the instant at which the slow action ends
           busySeq,       \* creation order of the slow action's sleep handle
           seq,           \* creation counter of call_at handles
           deferred,      \* log entries of the suspended macrostep that happen when the slow action ends
           ghost,         \* [entered: state -> time of last entry, ep: state -> activation count, fired: set of <<state, key, ep>>]
           out, lastStep
-svars == <<mi, status, config, hist, ctx, output, queue, now, timers, busy, busySeq, seq, deferred, ghost, out, lastStep>>
+svars == <<mi, status, config, hist, ctx, output, queue, now, timers, svcs, busy, busySeq, seq, deferred, ghost, out, lastStep>>
 
 SPack == [config |-> config, hist |-> hist, status |-> status, ctx |-> ctx, queue |-> queue,
           out |-> <<>>, err |-> NoErr, rd |-> 0, output |-> output, gv |-> <<>>, faults |-> {}, halt |-> FALSE, slow |-> 0]
 
 DelayOf(key) == D.delayMs[key]
+InvOwner(inv) == CHOOSE s \in D.states : \E i \in 1..Len(D.invokes[s]) : D.invokes[s][i].id = inv
+InvRec(inv) == LET s == InvOwner(inv) IN D.invokes[s][CHOOSE i \in 1..Len(D.invokes[s]) : D.invokes[s][i].id = inv]
 
 \* fold the step's log into the timer table and the ghost: arm adds, cancel removes the owner's timers
 RECURSIVE Book(_, _, _)
@@ -53,8 +56,14 @@ Book(o, i, b) ==
           Book(o, i + 1, [b EXCEPT !.timers = @ \cup {[owner |-> e.a, key |-> e.b, due |-> b.t + DelayOf(e.b),
                                                        seq |-> b.seq, ep |-> b.g.ep[e.a]]},
                                    !.seq = @ + 1])
+       ELSE IF e.k = "invoke" THEN
+          Book(o, i + 1, [b EXCEPT !.svcs = @ \cup {[owner |-> e.a, inv |-> e.b, seq |-> b.seq]}, !.seq = @ + 1])
+       ELSE IF e.k \in {"svc_done", "svc_error"} THEN
+          \* the completion was just sent: remember which activation of the owner produced it (ghost)
+          Book(o, i + 1, [b EXCEPT !.svcs = {v \in @ : v.inv # e.a},
+                                   !.g.doneEp = [x \in DOMAIN @ \cup {e.a} |-> IF x = e.a THEN b.g.ep[InvOwner(e.a)] ELSE @[x]]])
        ELSE IF e.k = "cancel" THEN
-          Book(o, i + 1, [b EXCEPT !.timers = {t \in @ : t.owner # e.a}])
+          Book(o, i + 1, [b EXCEPT !.timers = {t \in @ : t.owner # e.a}, !.svcs = {v \in @ : v.owner # e.a}])
        ELSE IF e.k = "timer_fired" THEN
           Book(o, i + 1, [b EXCEPT !.timers = {t \in @ : ToString(t.seq) \notin e.c}])
        ELSE Book(o, i + 1, b)
@@ -69,13 +78,14 @@ SlowCut(o) == LET I == {i \in 1..Len(o) : o[i].k = "act" /\ o[i].a \in SlowNames
               IN IF I = {} THEN 0 ELSE CHOOSE i \in I : \A x \in I : x <= i
 
 Commit(st, step, t, tm, bz, bzs, sq) ==
-  LET b == Book(st.out, 1, [timers |-> tm, seq |-> sq, g |-> ghost, t |-> t])
+  LET b == Book(st.out, 1, [timers |-> tm, svcs |-> IF step.op = "stop" THEN {} ELSE svcs, seq |-> sq, g |-> ghost, t |-> t])
       slowNow == st.slow > 0
       cut == IF slowNow THEN SlowCut(st.out) ELSE 0
   IN /\ config' = st.config /\ hist' = st.hist /\ status' = st.status /\ ctx' = st.ctx /\ output' = st.output
      /\ queue' = st.queue
      /\ now' = t
      /\ timers' = b.timers
+     /\ svcs' = b.svcs
      /\ busy' = IF slowNow THEN t + st.slow ELSE bz
      /\ busySeq' = IF slowNow THEN b.seq ELSE bzs
      /\ seq' = IF slowNow THEN b.seq + 1 ELSE b.seq
@@ -91,8 +101,8 @@ Init == /\ mi \in 1..Len(Machines)
         /\ status = "uninitialized" /\ config = {} /\ hist = [p \in {s \in Machines[mi].states :
               \E i \in 1..Len(Machines[mi].children[s]) : Machines[mi].kind[Machines[mi].children[s][i]] = "history"} |-> {}]
         /\ ctx = Machines[mi].ctx0 /\ output = NONE /\ queue = <<>>
-        /\ now = 0 /\ timers = {} /\ busy = 0 /\ busySeq = 0 /\ seq = 1 /\ deferred = <<>>
-        /\ ghost = [entered |-> Z0(Machines[mi].states), ep |-> Z0(Machines[mi].states)]
+        /\ now = 0 /\ timers = {} /\ svcs = {} /\ busy = 0 /\ busySeq = 0 /\ seq = 1 /\ deferred = <<>>
+        /\ ghost = [entered |-> Z0(Machines[mi].states), ep |-> Z0(Machines[mi].states), doneEp |-> <<>>]
         /\ out = <<>> /\ lastStep = [op |-> "init", ev |-> "", gv |-> <<>>, dt |-> 0]
 
 GVs == [D.guards -> {"T", "F"}]
@@ -143,14 +153,38 @@ DAdvance ==
            st2 == IF r.busy > 0 \/ r.st.slow > 0 THEN r.st ELSE AsyncLoop(r.st, gv, D.fuel)
        IN Commit(st2, [op |-> "advance", ev |-> "", gv |-> gv, dt |-> t - now], t, timers, r.busy, busySeq, seq)
 
+\* a driver-controlled service returns / raises: its task sends the completion event (dropped when the
+\* interpreter is stopped/done/error), the plugin hook runs, and an error nobody declared a handler for
+\* puts the interpreter into the error status before the consumer gets to run
+DResolve ==
+  /\ status # "uninitialized"
+  /\ \E v \in svcs : \E gv \in GVs :
+       LET ev == [type |-> D.doneInvokeEv[v.inv], kind |-> "done", src |-> v.inv]
+           st0 == Log(Enqueue([SPack EXCEPT !.gv = gv], ev, "async"), L("svc_done", v.inv, "", {}))
+       IN Commit(RunToIdle(st0), [op |-> "resolve", ev |-> v.inv, gv |-> gv, dt |-> 0], now, timers, busy, busySeq, seq)
+DReject ==
+  /\ status # "uninitialized"
+  /\ \E v \in svcs : \E gv \in GVs :
+       LET ev == [type |-> D.errorInvokeEv[v.inv], kind |-> "done", src |-> v.inv]
+           st0 == Log(Enqueue([SPack EXCEPT !.gv = gv], ev, "async"), L("svc_error", v.inv, "", {}))
+           st1 == IF InvRec(v.inv).hasOnError \/ st0.status \notin {"running", "uninitialized"} THEN st0
+                  ELSE Log(Log([st0 EXCEPT !.status = "error"], L("error", "RuntimeError", "", {})),
+                           L("subscriber", "", "", st0.config))
+           \* the consumer was blocked in queue.get() (idle, empty queue): it processes the event that
+           \* woke it although the status is no longer "running"
+           wasBlocked == busy = 0 /\ queue = <<>>
+       IN Commit(IF busy > 0 THEN st1 ELSE AsyncLoopFrom(st1, gv, D.fuel, wasBlocked),
+                 [op |-> "reject", ev |-> v.inv, gv |-> gv, dt |-> 0], now, timers, busy, busySeq, seq)
+
 DStop == /\ status \notin {"uninitialized", "stopped"}
          /\ Commit(Log([SPack EXCEPT !.status = "stopped"], L("interp_stop", "", "", {})),
                    [op |-> "stop", ev |-> "", gv |-> <<>>, dt |-> 0], now, {}, 0, 0, seq)
 
-Next == DStart \/ DSend \/ DWait \/ DAdvance \/ DStop
+Next == DStart \/ DSend \/ DWait \/ DAdvance \/ DStop \/ DResolve \/ DReject
 Spec == Init /\ [][Next]_svars
 TimerView == {<<t.owner, t.key, t.due, Cardinality({u \in timers : u.seq < t.seq})>> : t \in timers}
-View == <<mi, status, config, hist, ctx, output, queue, now, TimerView, busy, ghost.entered>>
+SvcView == {<<v.owner, v.inv, Cardinality({u \in svcs : u.seq < v.seq})>> : v \in svcs}
+View == <<mi, status, config, hist, ctx, output, queue, now, TimerView, SvcView, busy, ghost.entered>>
 Horizon == now <= MaxNow /\ Len(queue) <= 3 /\ TLCGet("level") <= MaxDepth
 
 --------------------------------------------------------------------------
@@ -206,14 +240,53 @@ C08Step ==
              ELSE {}
   IN walk \cup afterStop \cup due
 
+--------------------------------------------------------------------------
+(* Prop C09 on one driver step                                               *)
+InvTrans == {t \in 1..Len(D.trans) : D.trans[t].bucket \in {"invDone", "invErr"}}
+InvOfType(ty) == IF ty \in DOMAIN D.evKind /\ D.evKind[ty].kind = "done" THEN D.evKind[ty].src ELSE ""
+AllInvIds == UNION {{D.invokes[s][i].id : i \in 1..Len(D.invokes[s])} : s \in D.states}
+
+RECURSIVE C09Walk(_, _, _, _)
+\* g: [ep, doneEp, cur] ; cur = invocation id whose completion event is being processed ("" none)
+C09Walk(o, i, g, acc) ==
+  IF i > Len(o) THEN acc
+  ELSE LET e == o[i] IN
+       IF e.k = "sched" THEN C09Walk(o, i + 1, [g EXCEPT !.ep[e.a] = @ + 1], acc)
+       ELSE IF e.k \in {"svc_done", "svc_error"} /\ e.a \in AllInvIds THEN
+          C09Walk(o, i + 1, [g EXCEPT !.doneEp = [x \in DOMAIN @ \cup {e.a} |-> IF x = e.a THEN g.ep[InvOwner(e.a)] ELSE @[x]]], acc)
+       ELSE IF e.k = "event" THEN
+          LET inv == InvOfType(e.a)
+              stale == inv \in AllInvIds /\ inv \in DOMAIN g.doneEp /\ g.doneEp[inv] # g.ep[InvOwner(inv)]
+          IN C09Walk(o, i + 1, [g EXCEPT !.cur = IF stale THEN inv ELSE ""], acc)
+       ELSE IF e.k = "on_transition" /\ g.cur # "" /\ \E t \in InvTrans : D.trans[t].name = e.b THEN
+          \* a handler of the invocation was driven by a result that an EARLIER activation produced
+          C09Walk(o, i + 1, g, acc \cup {"stale_result_drove_handler"})
+       ELSE C09Walk(o, i + 1, g, acc)
+
+C09Step ==
+  LET o == out'
+      walk == C09Walk(o, 1, [ep |-> ghost.ep, doneEp |-> ghost.doneEp, cur |-> ""], {})
+      cnt(k, a, b2) == Cardinality({i \in 1..Len(o) : o[i].k = k /\ o[i].a = a /\ (b2 = "" \/ o[i].b = b2)})
+      once == \A s \in D.states : \A x \in 1..Len(D.invokes[s]) :
+                 cnt("invoke", s, D.invokes[s][x].id) = cnt("sched", s, "")
+      unhandled == (lastStep'.op = "reject" /\ status = "running" /\ ~InvRec(lastStep'.ev).hasOnError)
+                      => status' = "error"
+      zombies == \A v \in svcs' : v.owner \in config' /\ status' # "stopped"
+  IN walk \cup Tag(once, "not_started_exactly_once_per_entry")
+          \cup Tag(unhandled, "unhandled_failure_not_error_status")
+          \cup Tag(zombies, "service_alive_after_exit_or_stop")
+
 OnS(p, v) == IF p \in PropSetS THEN v ELSE {}
 SProj == [config |-> config, hist |-> hist, status |-> status, ctx |-> ctx, output |-> output,
           queue |-> [i \in 1..Len(queue) |-> queue[i].type], now |-> now, busy |-> busy,
-          timers |-> LET q == SortBy(timers, [t \in timers |-> t.seq]) IN [i \in 1..Len(q) |-> <<q[i].owner, q[i].key, q[i].due>>]]
+          timers |-> LET q == SortBy(timers, [t \in timers |-> t.seq]) IN [i \in 1..Len(q) |-> <<q[i].owner, q[i].key, q[i].due>>],
+          svcs |-> LET q == SortBy(svcs, [v \in svcs |-> v.seq]) IN [i \in 1..Len(q) |-> <<q[i].owner, q[i].inv>>]]
 SProj2 == [config |-> config', hist |-> hist', status |-> status', ctx |-> ctx', output |-> output',
            queue |-> [i \in 1..Len(queue') |-> queue'[i].type], now |-> now', busy |-> busy',
-           timers |-> LET q == SortBy(timers', [t \in timers' |-> t.seq]) IN [i \in 1..Len(q) |-> <<q[i].owner, q[i].key, q[i].due>>]]
+           timers |-> LET q == SortBy(timers', [t \in timers' |-> t.seq]) IN [i \in 1..Len(q) |-> <<q[i].owner, q[i].key, q[i].due>>],
+           svcs |-> LET q == SortBy(svcs', [v \in svcs' |-> v.seq]) IN [i \in 1..Len(q) |-> <<q[i].owner, q[i].inv>>]]
 EmitS == PrintT(ToJson([mi |-> mi, from |-> SProj, step |-> lastStep', to |-> SProj2, out |-> out',
                         prop |-> [C08 |-> OnS("C08", C08Step),
+                                  C09 |-> OnS("C09", C09Step),
                                   C01 |-> OnS("C01", Tag(status' \in {"running", "done"} => Legal(config'), "final"))]]))
 =============================================================================
